@@ -170,3 +170,16 @@ Proof. vm_compute. split; reflexivity. Qed.
 
 Print Assumptions C13_splice.
 Print Assumptions C13_splice_hints_irrelevant.
+
+(* ---- dedup_by / dedup_by_key / dedup (VecDedup.v): what stays is what std documents ---- *)
+From BV Require Import VecDedup.
+Theorem C13_dedup_by : forall e v x0 xs ans,
+  repr e v (x0 :: xs) -> no_boom ans -> (length xs <= length ans)%nat ->
+  repr e (dedup_state v ans) (x0 :: dedup_keep xs ans) /\
+  Permutation.Permutation ((x0 :: dedup_keep xs ans) ++ f_drops (snd (dedup_by v ans))) (x0 :: xs).
+Proof. exact dedup_by_spec. Qed.
+
+Example C13_dedup_example :
+  dedup_keep [2; 3; 4; 5] [Yes; No; Yes; No] = [3; 5].
+Proof. reflexivity. Qed.
+Print Assumptions C13_dedup_by.
